@@ -214,8 +214,11 @@ fn main() {
         "1.0.0-x+{N}", "1.0.0+a.{N}", "v{N}.{N}.{N}-{N}+{N}", "1.0.0-rc.{N}.1", "1.0.0-{N}.{N}"];
     let mut sc = Stats::default();
     let mut c_samples = vec![];
+    // plus the dense grid (numpool), plain and with one leading zero
+    let grid: Vec<String> = numpool::grid().into_iter().flat_map(|n| [n.clone(), format!("0{n}")]).collect();
+    let nums: Vec<&str> = nums.iter().copied().chain(grid.iter().map(|s| s.as_str())).collect();
     for t in templates {
-        for n in nums {
+        for n in &nums {
             let x = t.replace("{N}", n);
             sc.inc("boundary_cases");
             let v = judge(&x, true, &mut sc);
